@@ -191,6 +191,16 @@ func renderTypes(s []httpapi.Endpoint) string {
 		if ty := api.Contract.Return; ty != nil {
 			allTypes = append(allTypes, ty)
 		}
+		// the types of the query parameters and of the JSON form field
+		// are also used in the method signatures
+		for _, param := range api.Contract.InputQueryParams {
+			if param.Type != nil {
+				allTypes = append(allTypes, param.Type)
+			}
+		}
+		if ty := api.Contract.InputForm.JSON.Type; ty != nil {
+			allTypes = append(allTypes, ty)
+		}
 	}
 	return generator.WriteDeclarations(generateTypes(allTypes))
 }
